@@ -96,6 +96,14 @@ Record Case := mkCase { cs_init : World; cs_probe : Probe; cs_steps : list Step 
 Definition side_chain (w : World) (s : Side) : Chain AppSt :=
   match s with SA => w_chain (wa w) | SB => w_chain (wb w) end.
 
+(** the hypotheses of the end-to-end theorems (Core/WorldInv.v [good_step]) on a recorded block: same revision, the
+    chain's height increases, its time does not decrease, the operation is not a bare block operation.  A recorded
+    history outside these hypotheses counts as a disagreement: the theorems would not speak about it. *)
+Definition good_stepb (w : World) (s : Step) : bool :=
+  let c := side_chain w (st_side s) in
+  (rev (st_h s) =? rev (self_h c)) && (ht (self_h c) <? ht (st_h s)) && (self_t c <=? st_t s) &&
+  match st_op s with WPacket (OBlock _ _) _ | WPacketC (OBlock _ _) _ _ => false | _ => true end.
+
 (** index (from 0) of the first step whose observation differs, or None *)
 Fixpoint replay (p : Probe) (w : World) (steps : list Step) (i : N) : option N :=
   match steps with
@@ -105,7 +113,7 @@ Fixpoint replay (p : Probe) (w : World) (steps : list Step) (i : N) : option N :
       let '(w', out) := wstep w (st_side s) (st_h s) (st_t s) (st_op s) in
       let c' := side_chain w' (st_side s) in
       let newevs := skipn before (events c') in
-      if outcome_eqb out (st_out s) && list_eqb event_eqb newevs (st_evs s) && proj_eqb (project p c') (st_proj s)
+      if good_stepb w s && outcome_eqb out (st_out s) && list_eqb event_eqb newevs (st_evs s) && proj_eqb (project p c') (st_proj s)
       then replay p w' rest (i + 1)
       else Some i
   end.
